@@ -6,6 +6,8 @@ model's `sgrOne` (`sgr_iter`), the extended-colour arms 38 / 48 / 58 are the mod
 -/
 import VaxisModel.Lemmas.EmuBody
 
+set_option linter.unusedSimpArgs false
+
 namespace VaxisModel.Lemmas.EmuBody
 open VaxisModel.Model.Emu VaxisModel.Model.EmuBody VaxisModel.Lemmas.Emu VaxisModel.Gen VaxisModel.Gen.TermModes
 
